@@ -21,7 +21,7 @@ pub fn def() -> CheckDef {
         info: CheckInfo {
             id: "C04",
             level: "fault_enumeration",
-            rule: "one seeded run = one scenario (short history, edited tree, options biased to small blocks so that combined blocks flush by size in mid-run) whose final backup is traced fault-free and then re-run from the same pre-state with operation k failing, for EVERY k of the trace and each of {not-found, already-exists, permission-denied, other}, plus 4 (thorough: 16) seeded multi-fault runs in which each operation fails independently with p in {0.02, 0.1}. One evaluation = one faulted backup with all oracles applied (no panic, earlier files byte-identical, every recorded file entry of every band reassembles to that version's source bytes, clean success implies a complete exactly-restoring version). Non-trivial: the injected failure hit a write, a create_dir, or a read/list after the band was created; distinct = distinct (pre-state hash, k, kind).",
+            rule: "one seeded run = one scenario (short history, edited tree, options biased to small blocks so that combined blocks flush by size in mid-run) whose final backup is traced fault-free and then re-run from the same pre-state with operation k failing, for EVERY k of the trace and each of {not-found, already-exists, permission-denied, other}, plus, for every write k, three fault bursts (operations k and k+1 both fail: (other, already-exists) and two seeded pairs of kinds), plus 4 (thorough: 16) seeded multi-fault runs in which each operation fails independently with p in {0.02, 0.1}. One evaluation = one faulted backup with all oracles applied (no panic, earlier files byte-identical, every recorded file entry of every band reassembles to that version's source bytes, clean success implies a complete exactly-restoring version). Non-trivial: the injected failure hit a write, a create_dir, or a read/list after the band was created; distinct = distinct (pre-state hash, k, kind).",
             assumptions: &[
                 "a failing operation returns its error without taking effect (lost acknowledgements are outside the property's fault model)",
                 "a silent fall-back to an older basis after a failed basis read is acceptable (content is stored again)",
@@ -43,6 +43,7 @@ pub fn def() -> CheckDef {
             "backup_continued_after_entry_error",
             "backup_aborted_with_error",
             "multi_fault_run",
+            "fault_burst_run",
             "combiner_flushed_by_size",
         ],
     }
@@ -104,6 +105,27 @@ fn execute_found(sc: &Scenario, acc: &mut Acc) -> Result<Vec<Found>, String> {
             }
         }
         let mut r = Rng::new(sc.seed ^ 0x04);
+        // fault bursts: two consecutive operations fail (a failed write followed by a failed
+        // retry or clean-up of it), for every write of the trace: the pair (other,
+        // already-exists), which is what a retried create-new write meets if the first
+        // attempt is assumed to have landed, and two seeded pairs
+        let probe_log = probe.core.log_since(b.call.log_from);
+        for (k, rec) in probe_log.iter().enumerate() {
+            if rec.verb != "write" {
+                continue;
+            }
+            let k = k as u32;
+            let mut pairs = vec![(EKind::Other, EKind::AlreadyExists)];
+            for _ in 0..2 {
+                pairs.push((*r.pick(&EKind::ALL), *r.pick(&EKind::ALL)));
+            }
+            for (k1, k2) in pairs {
+                let mut p = FaultPlan::none();
+                p.at.insert(k, Fault::Fail(k1));
+                p.at.insert(k + 1, Fault::Fail(k2));
+                plans.push(p);
+            }
+        }
         for _ in 0..multi {
             let mut p = FaultPlan::none();
             p.fail_each = Some((r.next_u64(), *r.pick(&[20u32, 100])));
@@ -124,6 +146,9 @@ fn execute_found(sc: &Scenario, acc: &mut Acc) -> Result<Vec<Found>, String> {
         acc.faults_of(&b.call.fired);
         if plan.fail_each.is_some() {
             acc.hit("multi_fault_run");
+        }
+        if plan.at.len() > 1 {
+            acc.hit("fault_burst_run");
         }
         let log = cw.core.log_since(b.call.log_from);
         let band_created = log.iter().any(|r| r.verb == "mkdir" && r.mutated() && format::parse_band_dir(&r.path).is_some());
